@@ -584,19 +584,13 @@ def rule(name):
 
 
 def _r0_wildcard(text):
+    """`|_| e` / `|_: T| e` (a closure whose whole parameter list is one wildcard) -> `|_ignoredN| e`.  Deliberately narrow: a `_`
+    inside a longer parameter list or a tuple pattern cannot be told from an or-pattern in a match arm by a regex."""
     n = [0]
     def repl(m):
         n[0] += 1
-        return "%s_ignored%d%s" % (m.group(1), n[0], m.group(2))
-    return re.sub(r"(\|\s*|,\s*)_(\s*(?::[^|,]*)?(?:\||,))", lambda m: repl(m) if _in_closure_header(text, m.start()) else m.group(0), text)
-
-
-def _in_closure_header(text, pos):
-    # a `_` parameter directly after `|` (first parameter) -- the only shape handled; `, _` inside a closure header is
-    # accepted only if an opening `|` precedes it on the same line without a closing one
-    line_start = text.rfind("\n", 0, pos) + 1
-    seg = text[line_start:pos + 1]
-    return seg.count("|") % 2 == 1
+        return "|_ignored%d%s|" % (n[0], m.group(1) or "")
+    return re.sub(r"\|_(\s*:[^|]*)?\|", repl, text)
 
 
 _r0_wildcard.rule = "R0-wildcard-closure-param"
